@@ -20,9 +20,9 @@
 #define ARCH_SET_CPUID 0x1012
 #endif
 
-enum { M_HOST = 0, M_NO_AVX2, M_NO_OSXSAVE, M_NO_AVX, M_MAXLEAF6, M_NO_SSE2, M_XCR0_NO_YMM, M_XCR0_X87_ONLY, M_N };
+enum { M_HOST = 0, M_NO_AVX2, M_NO_OSXSAVE, M_NO_AVX, M_MAXLEAF6, M_NO_SSE2, M_XCR0_NO_YMM, M_XCR0_X87_ONLY, M_SSE2_ONLY, M_N };
 static const char *const mname[M_N] = {"host-truth", "no-AVX2-bit", "AVX2-bit-without-OSXSAVE", "AVX2-bit-without-AVX-bit", "max-leaf-6-intel-semantics-adversarial-EBX", "no-SSE2",
-                                        "OS-did-not-enable-YMM-state(XCR0=3,single-stepped)", "OS-enabled-x87-state-only(XCR0=1,single-stepped)"};
+                                        "OS-did-not-enable-YMM-state(XCR0=3,single-stepped)", "OS-enabled-x87-state-only(XCR0=1,single-stepped)", "SSE2-only-cpu(K8-class:max-leaf-1,no-SSE3/SSSE3/SSE4/POPCNT/XSAVE/AVX)"};
 
 static volatile int g_model = M_HOST;
 static volatile int g_trapping = 0;
@@ -46,6 +46,11 @@ static void model_cpuid(int model, uint32_t leaf, uint32_t sub, uint32_t o[4])
     case M_MAXLEAF6:
         if (leaf == 0) o[0] = 6;
         else if (leaf > 6 && leaf < 0x40000000u) { real_cpuid(6, sub, o); o[1] |= (1u << 5); }   /* Intel: data of the highest basic leaf; EBX adversarial */
+        break;
+    case M_SSE2_ONLY:
+        if (leaf == 0) o[0] = 1;
+        else if (leaf == 1) o[2] &= ~((1u << 0) | (1u << 1) | (1u << 9) | (1u << 12) | (1u << 19) | (1u << 20) | (1u << 22) | (1u << 23) | (1u << 25) | (1u << 26) | (1u << 27) | (1u << 28) | (1u << 29));
+        else if (leaf < 0x40000000u) o[0] = o[1] = o[2] = o[3] = 0;          /* AMD semantics above the highest leaf: zeros */
         break;
     case M_NO_SSE2:
         if (leaf == 1) { o[3] &= ~(1u << 26); o[2] &= ~((1u << 28) | (1u << 27)); }
@@ -105,7 +110,29 @@ static void segv_handler(int sig, siginfo_t *si, void *ucv)
 /* ---- single-step monitor (EFLAGS.TF): emulates XGETBV for the XCR0 models and watches for VEX/EVEX-encoded
  * instructions executed by the library while the emulated CPU/OS cannot execute them ---- */
 extern char __executable_start[], etext[], _end[];
-static volatile int g_step_xcr0_emulate, g_step_forbid_vex;
+static volatile int g_step_xcr0_emulate, g_step_forbid_vex, g_step_forbid_post_sse2;
+static volatile uint64_t g_post_sse2_count, g_post_sse2_first;
+/* does the instruction at ip belong to an extension newer than SSE2 (legacy encodings: SSE3, SSSE3, SSE4.x, AES-NI, SHA,
+   POPCNT, MOVBE, ...; VEX/EVEX are handled separately)?  Every instruction of opcode maps 0F 38 and 0F 3A is. */
+static int post_sse2_insn(const uint8_t *ip)
+{
+    int i = 0, p66 = 0, pf2 = 0, pf3 = 0; uint8_t op;
+    for (; i < 8; ++i) {
+        uint8_t b = ip[i];
+        if (b == 0x66) p66 = 1; else if (b == 0xF2) pf2 = 1; else if (b == 0xF3) pf3 = 1;
+        else if (b == 0x2E || b == 0x36 || b == 0x3E || b == 0x26 || b == 0x64 || b == 0x65 || b == 0x67 || b == 0xF0) { }
+        else break;
+    }
+    if ((ip[i] & 0xF0) == 0x40) ++i;                 /* REX */
+    if (ip[i] != 0x0F) return 0;
+    op = ip[i + 1];
+    if (op == 0x38 || op == 0x3A) return 1;
+    if (pf3 && op == 0xB8) return 1;                                                   /* POPCNT */
+    if (pf2 && (op == 0x12 || op == 0x7C || op == 0x7D || op == 0xD0 || op == 0xF0)) return 1;   /* SSE3 */
+    if (p66 && !pf2 && !pf3 && (op == 0x7C || op == 0x7D || op == 0xD0)) return 1;
+    if (pf3 && (op == 0x12 || op == 0x16)) return 1;
+    return 0;
+}
 static volatile uint32_t g_step_xcr0;
 static volatile uint64_t g_steps, g_xgetbv_events, g_vex_count, g_vex_first;
 static void trap_handler(int sig, siginfo_t *si, void *ucv)
@@ -119,6 +146,9 @@ static void trap_handler(int sig, siginfo_t *si, void *ucv)
     } else if (g_step_forbid_vex && (const char *)ip >= __executable_start && (const char *)ip < etext && (ip[0] == 0xC4 || ip[0] == 0xC5 || ip[0] == 0x62)) {
         if (!g_vex_count) g_vex_first = (uint64_t)(ip - (const uint8_t *)__executable_start);
         g_vex_count++;
+    } else if (g_step_forbid_post_sse2 && (const char *)ip >= __executable_start && (const char *)ip < etext && post_sse2_insn(ip)) {
+        if (!g_post_sse2_count) g_post_sse2_first = (uint64_t)(ip - (const uint8_t *)__executable_start);
+        g_post_sse2_count++;
     }
 }
 static void install_trap(void)
@@ -210,16 +240,17 @@ static void one_case(uint64_t idx)
     snprintf(d, sizeof(d), "{\"driver\":\"drv_cpuid\",\"prop\":\"C13\",\"seed\":%llu,\"case\":%llu,\"variant\":\"%s\"}", (unsigned long long)vh_seed, (unsigned long long)idx, vh_variant);
     if (!trapped) model = M_HOST;
     int stepped = (model == M_XCR0_NO_YMM || model == M_XCR0_X87_ONLY);
-    int vex_watch = idx < 48;                     /* single-stepping costs ~3 us per instruction: only the first two sweeps */
-    if (stepped && idx >= 96) { VH_COUNT("single_step_models_skipped_after_two_sweeps", 1); return; }
-    int no_avx = (model == M_NO_OSXSAVE || model == M_NO_AVX || model == M_NO_SSE2 || stepped);
+    int vex_watch = idx < 6 * M_N;                /* single-stepping costs ~3 us per instruction: only the first sweeps */
+    int no_osxsave = (model == M_NO_OSXSAVE || model == M_NO_SSE2 || model == M_SSE2_ONLY);
+    if (stepped && idx >= 12 * M_N) { VH_COUNT("single_step_models_skipped_after_two_sweeps", 1); return; }
+    int no_avx = (model == M_NO_OSXSAVE || model == M_NO_AVX || model == M_NO_SSE2 || model == M_SSE2_ONLY || stepped);
     snprintf(key, sizeof(key), "C13:%s:%s", INITS[fi].name, mname[model]);
     vh_case_begin(idx, key, d);
     exp_be = expected_backend(model, c->id == CIPH_S128);
     g_model = model;
     if (trapped && !arm()) { printf("{\"type\":\"inconclusive\",\"reason\":\"cannot enable CPUID faulting\"}\n"); fflush(stdout); _exit(3); }
     for (rep = 0; rep < (stepped ? 3 : 24); ++rep) {
-        vh_handle h; int ret, be, i; const char *bad = NULL;
+        vh_handle h; int ret, be, i, xgetbv_bad = 0; const char *bad = NULL;
         for (i = 0; i < 8; ++i) g[i] = (rep < 10) ? small[(rep + i) % 10] : vh_rand(&r);
         if (rep < 10) g[0] = small[rep];
         memset(&h, vh_below(&r, 2) ? 0 : 0xCC, sizeof(h));
@@ -227,6 +258,13 @@ static void one_case(uint64_t idx)
         g_nev = 0;
         vh_call_begin(INITS[fi].name);
         if (stepped) { g_step_xcr0 = model_xcr0(model); g_step_xcr0_emulate = 1; g_step_forbid_vex = 1; g_vex_count = 0; STEP_ON(); ret = vh_tramp(INITS[fi].fn, &h, g); STEP_OFF(); g_step_xcr0_emulate = 0; g_step_forbid_vex = 0; VH_COUNT("single_stepped_init_calls", 1); }
+        else if (trapped && no_osxsave && vex_watch && rep == 1) {
+            /* CPUID.1:ECX.OSXSAVE is clear in this model: XGETBV would raise #UD on such a machine, so the probe must not execute it */
+            uint64_t x0 = g_xgetbv_events;
+            STEP_ON(); ret = vh_tramp(INITS[fi].fn, &h, g); STEP_OFF();
+            VH_COUNT("single_stepped_init_calls", 1); VH_COUNT("init_calls_watched_for_xgetbv_without_osxsave", 1);
+            if (g_xgetbv_events != x0) xgetbv_bad = 1;
+        }
         else ret = vh_tramp(INITS[fi].fn, &h, g);
         vh_call_end();
         VH_COUNT("init_calls", 1);
@@ -245,6 +283,7 @@ static void one_case(uint64_t idx)
             }
         }
         if (!ret) bad = "init-failed";
+        if (xgetbv_bad) bad = "XGETBV-executed-although-OSXSAVE-is-clear(would-raise-#UD)";
         if (ret && h.vtable && !((const char *)h.vtable >= __executable_start && (const char *)h.vtable < _end)) {
             /* the handle's table pointer is not an object of this executable: init left garbage in it */
             bad = "handle-vtable-is-not-a-library-table-after-init"; be = -1;
@@ -264,13 +303,16 @@ static void one_case(uint64_t idx)
                (code in this executable, libc excluded) executes no VEX/EVEX-encoded instruction */
             uint8_t kb[16], buf[300], tw[300]; vh_rand_bytes(&r, kb, 16); vh_rand_bytes(&r, buf, 300); vh_rand_bytes(&r, tw, 300);
             g_step_xcr0 = model_xcr0(model); g_step_xcr0_emulate = stepped; g_step_forbid_vex = 1; g_vex_count = 0;
+            g_step_forbid_post_sse2 = (model == M_SSE2_ONLY); g_post_sse2_count = 0;
             vh_call_begin("life cycle under VEX watch");
             STEP_ON();
             if (INITS[fi].par) { c->par_set_key(&h, kb, 16, 6, MANTIS_ENCRYPT); c->par_encrypt(buf, buf, tw, 10 * c->bb, &h); if (c->par_decrypt) c->par_decrypt(buf, buf, tw, 9 * c->bb, &h); }
             else { c->ctr_set_key(&h, kb, 16, 6); c->ctr_set_counter(&h, kb, c->bb); c->ctr_encrypt(buf, buf, 150, &h); c->ctr_set_tweak(&h, tw, 8); c->ctr_encrypt(buf, buf, 33, &h); }
             STEP_OFF();
             vh_call_end();
-            g_step_forbid_vex = 0; g_step_xcr0_emulate = 0;
+            g_step_forbid_vex = 0; g_step_xcr0_emulate = 0; g_step_forbid_post_sse2 = 0;
+            if (model == M_SSE2_ONLY) VH_COUNT("life_cycles_single_stepped_on_sse2_only_cpu_model", 1);
+            if (g_post_sse2_count) bad = "library-executed-SSE3/SSSE3/SSE4-class-instructions-on-an-SSE2-only-cpu";
             VH_COUNT("life_cycles_single_stepped_under_vex_watch", 1); VH_COUNT("instructions_single_stepped", g_steps); g_steps = 0;
             if (g_vex_count) bad = "library-executed-AVX-encoded-instructions-on-a-cpu-or-os-without-AVX";
         }
